@@ -3,3 +3,6 @@ import DefconModel.Util.AL
 import DefconModel.Notify
 import DefconModel.AllDrivers
 import DefconModel.Props.C04
+import DefconModel.Geom
+import DefconModel.Drivers.Geom
+import DefconModel.Props.C17
